@@ -128,69 +128,25 @@ class ReedMullerDecoder(BaseBlockDecoder[ReedMullerCodeEncoder]):
             correctly. The actual construction of these partitions is based on the
             recursive structure of Reed-Muller codes and their relation to finite geometries.
         """
-        # This is a simplified implementation of Reed partitions generation
-        # In a full implementation, this would depend on the specific parameters
-        # of the Reed-Muller code (r, m)
+        # Row j of the generator matrix is the product of the evaluation vectors v_i, i in I_j,
+        # taken in the encoder's order: all |I| = r subsets first, then r - 1, ..., down to the
+        # empty set (the all-ones row).  Evaluation vector v_i equals bit (m - 1 - i) of the
+        # position index.  For the monomial with index set I the positions split into 2^(m-|I|)
+        # groups: fix the bits outside I, let the bits inside I run through all values.  The
+        # parity of the word over each group is an independent vote for the coefficient of the
+        # monomial once all higher-order terms have been removed.
+        from itertools import combinations, product
 
-        # For demonstration purposes, we'll create a basic structure
-        # A real implementation would compute these based on the code properties
+        m = self.encoder.length_param
+        r = self.encoder.order
         partitions = []
-
-        # Example partitioning logic - would need to be replaced with actual Reed-Muller partitioning
-        m = 0
-        r = 0
-
-        # Try to infer Reed-Muller parameters from code length and dimension
-        # For an (r,m) Reed-Muller code:
-        # - Length n = 2^m
-        # - Dimension k = sum(i=0 to r) of binomial(m,i)
-
-        # Infer m from code length
-        n = self.code_length
-        temp_m = 0
-        while 2**temp_m < n:
-            temp_m += 1
-        if 2**temp_m == n:
-            m = temp_m
-
-        # Given m, try to infer r from dimension
-        if m > 0:
-            k = self.code_dimension
-            temp_r = 0
-            temp_k = 0
-            while temp_k < k and temp_r <= m:
-                # Add binomial coefficient (m choose temp_r)
-                from math import comb
-
-                temp_k += comb(m, temp_r)
-                if temp_k == k:
-                    r = temp_r
-                    break
-                temp_r += 1
-
-        # Generate partitions based on Reed-Muller structure
-        if m > 0 and 0 <= r <= m:
-            # Generate partitions based on the cosets of the Reed-Muller code
-            # This is a simplified approach - actual implementation would be more involved
-
-            # For each information bit
-            for i in range(self.code_dimension):
-                # Create a partition for this bit
-                partition = []
-
-                # In a real implementation, these would be carefully constructed
-                # based on the algebraic structure of Reed-Muller codes
-                for j in range(2 ** (m - 1)):
-                    # Create groups of positions that form checks for this bit
-                    positions = []
-                    for offset in range(2**r):
-                        pos = (j * 2**r + offset) % self.code_length
-                        positions.append(pos)
-
-                    # Convert to tensor
-                    partition.append(torch.tensor(positions, dtype=torch.long))
-
-                partitions.append(partition)
+        for order in range(r, -1, -1):
+            for indices in combinations(range(m), order):
+                inner_bits = [m - 1 - i for i in indices]
+                outer_bits = [m - 1 - i for i in range(m) if i not in indices]
+                inner = [sum(b << pos for b, pos in zip(vec, inner_bits)) for vec in product([0, 1], repeat=len(inner_bits))]
+                outer = [sum(b << pos for b, pos in zip(vec, outer_bits)) for vec in product([0, 1], repeat=len(outer_bits))]
+                partitions.append([torch.tensor([q + s for s in inner], dtype=torch.long) for q in outer])
 
         return partitions
 
@@ -235,6 +191,8 @@ class ReedMullerDecoder(BaseBlockDecoder[ReedMullerCodeEncoder]):
             raise ValueError(f"Last dimension ({L}) must be divisible by code length ({self.code_length})")
 
         # Process blockwise
+        generator_rows = self.encoder.generator_matrix.to(torch.int).to(received.device)
+
         def decode_block(r_block):
             batch_size = r_block.shape[0]
             decoded = torch.zeros(batch_size, self.code_dimension, dtype=torch.int, device=received.device)
@@ -247,13 +205,11 @@ class ReedMullerDecoder(BaseBlockDecoder[ReedMullerCodeEncoder]):
                 else:  # Handle the case when r_block has shape [batch, code_length]
                     r = r_block[i, :]
 
-                """
                 # Convert to binary for hard decoding or compute hard decisions for soft decoding
                 if self.input_type == "hard":
-                    bx = r.clone()
+                    bx = r.clone().to(torch.int)
                 else:  # self.input_type == "soft"
                     bx = (r < 0).to(torch.int)
-                """
 
                 # Decode using Reed algorithm
                 u_hat = torch.zeros(self.code_dimension, dtype=torch.int, device=received.device)
@@ -275,7 +231,7 @@ class ReedMullerDecoder(BaseBlockDecoder[ReedMullerCodeEncoder]):
 
                             # Take relevant positions and compute parity
                             # Use indexing to select elements from the 1D tensor
-                            group_bits = r[valid_indices].to(torch.int)
+                            group_bits = bx[valid_indices].to(torch.int)
                             checksum = torch.sum(group_bits) % 2
                             checksums.append(checksum.item())  # Use .item() to convert tensor to scalar
 
@@ -302,7 +258,7 @@ class ReedMullerDecoder(BaseBlockDecoder[ReedMullerCodeEncoder]):
                                 continue
 
                             # Take relevant positions
-                            group_bits = (r[valid_indices] < 0).to(torch.int)
+                            group_bits = bx[valid_indices].to(torch.int)
                             group_reliabilities = torch.abs(r[valid_indices])
 
                             # Compute parity of hard decisions
@@ -326,6 +282,10 @@ class ReedMullerDecoder(BaseBlockDecoder[ReedMullerCodeEncoder]):
 
                         # Make decision
                         u_hat[j] = (decision_var < 0).to(torch.int)
+
+                    # Remove the decoded term so that the remaining word is a lower-order codeword
+                    if u_hat[j] == 1:
+                        bx = (bx.to(torch.int) + generator_rows[j]) % 2
 
                 # Store the decoded message
                 decoded[i] = u_hat
